@@ -61,6 +61,15 @@ PURE_BUILTINS = ("len", "str", "int", "list", "sorted", "bool", "repr",
 DEFAULT = type("DefaultMarker", (), {"__repr__": lambda s: "<default>"})()
 
 
+class ModelUnknown(Exception):
+    """The model cannot predict this (the case is skipped and counted)."""
+
+
+class ExpressionError(Exception):
+    """Model-side stand-in (same class *name*) for the error of an invalid
+    expression."""
+
+
 class ModelRaises(Exception):
     """The reference evaluation raises ``exc`` (an exception instance)."""
 
@@ -210,7 +219,7 @@ class Evaluator:
     def ev(self, e):
         try:
             return self._ev(e)
-        except ModelRaises:
+        except (ModelRaises, ModelUnknown):
             raise
         except RecursionError as exc:
             if getattr(exc, "_verif_planted", False):
@@ -363,7 +372,7 @@ class Evaluator:
                 return vals[0]
             return "".join("" if v is None else v for v in vals)
         if k == "invalid":
-            raise SyntaxError(e[1])
+            raise ExpressionError(e[1])
         raise ValueError(e)
 
 
